@@ -9,7 +9,7 @@ for d in $dir/*/; do
   git -C $REPO apply /verif/$d/patch.diff 2>/dev/null || { echo "$id APPLY-FAILED"; continue; }
   res=""
   for c in $prop "$@"; do
-    out=$($bin -repo $REPO -property $c -tier quick -evidence /tmp/ev_$c.json -known /verif/known_findings.json 2>&1); code=$?
+    out=$($bin -repo $REPO -property $c -tier quick -evidence /tmp/ev_$c.json -known ${VERIF_KNOWN:-/verif/known_findings.json} 2>&1); code=$?
     rules=$(echo "$out" | grep -o 'violated: rule=[A-Z0-9.]*' | sed 's/violated: rule=//' | sort -u | tr '\n' ',')
     res="$res $c:exit=$code[$rules]"
   done
